@@ -808,7 +808,153 @@ def c08_wait_from_anywhere_without_flush():
     return _run(sc)
 
 
+def c03_producers_of_one_round_depend_on_each_other():
+    """C03: producers handed in together are loaded side by side: an awaitable whose result is published by the
+    async iterable submitted right after it still gets its result, and everything reaches the function."""
+    from aiuti.asyncio import BufferAsyncCalls
+
+    async def sc():
+        loop = aio.get_running_loop()
+        calls = []
+
+        async def func(args):
+            calls.append(set(args))
+        buf = BufferAsyncCalls(func, timeout=1)
+        summary = loop.create_future()
+
+        async def rows():
+            for r in ('r1', 'r2'):
+                yield r
+            summary.set_result('summary')
+        buf.await_(summary)
+        buf.amap(rows())
+        out = []
+        try:
+            await aio.wait_for(buf.wait(), 100)
+        except BaseException as e:  # noqa
+            out.append('C03: wait() after await_(future) + amap(iterable that resolves the future) ended with %r; '
+                       'function received %r' % (e, calls))
+        got = set().union(*calls) if calls else set()
+        if not out and got != {'r1', 'r2', 'summary'}:
+            out.append('C03: await_(future) + amap(iterable that resolves the future): the function received %r' % (got,))
+        buf._waiting.cancel()
+        await aio.gather(buf._waiting, return_exceptions=True)
+        return out
+    return _run(sc)
+
+
+def c07_waiters_return_after_the_call_that_delivered_their_arguments():
+    """C07: wait() returns once what was submitted before it has been delivered by a successful call, whatever is
+    submitted afterwards (here: the function itself submits follow-up work on every call)."""
+    from aiuti.asyncio import BufferAsyncCalls
+
+    async def sc():
+        rounds = 12
+        state = {'n': 0, 'returned_at': {}}
+        box = {}
+
+        async def func(args):
+            state['n'] += 1
+            if state['n'] < rounds:
+                box['buf'](('follow-up', state['n']))
+            await aio.sleep(0)
+        buf = box['buf'] = BufferAsyncCalls(func, timeout=1)
+        buf('x')
+
+        async def waiter(name, cancel):
+            await buf.wait(cancel=cancel)
+            state['returned_at'][name] = state['n']
+        ws = [aio.ensure_future(waiter('cancel=True', True)), aio.ensure_future(waiter('cancel=False', False))]
+        done, pending = await aio.wait(ws, timeout=500)
+        out = []
+        for t in pending:
+            t.cancel()
+        if pending:
+            out.append('C07: wait() had not returned although the function had succeeded %d times since the submission '
+                       'it waited for (returned: %r)' % (state['n'], state['returned_at']))
+        late = {k: v for k, v in state['returned_at'].items() if v > 2}
+        if late:
+            out.append('C07: wait() returned only after %r successful calls although the first one delivered everything '
+                       'submitted before it' % (late,))
+        buf._waiting.cancel()
+        await aio.gather(buf._waiting, return_exceptions=True)
+        return out
+    return _run(sc)
+
+
+def c08_large_burst_in_one_go():
+    """C08/C03: a burst of 5000 plain calls made without giving the loop a turn is delivered completely, in one call,
+    timeout after the burst."""
+    from aiuti.asyncio import BufferAsyncCalls
+
+    async def sc():
+        loop = aio.get_running_loop()
+        calls = []
+        errors = []
+        loop.set_exception_handler(lambda l, ctx: errors.append(ctx.get('exception') or ctx.get('message')))
+
+        async def func(args):
+            calls.append((round(loop.time(), 3), len(set(args))))
+        buf = BufferAsyncCalls(func, timeout=1)
+        t0 = loop.time()
+        for i in range(5000):
+            buf(i)
+        await aio.sleep(30)
+        out = []
+        if [n for _, n in calls] != [5000] or round(calls[0][0] - t0, 3) != 1.0:
+            out.append('C08: 5000 calls in one go at t=0 (timeout 1): calls (time, distinct arguments) %r, expected '
+                       '[(1.0, 5000)]; loop errors: %r' % (calls[:4], errors[:2]))
+        buf._waiting.cancel()
+        await aio.gather(buf._waiting, return_exceptions=True)
+        return out
+    return _run(sc)
+
+
 # ------------------------------------------------------------------------------------------------- batcher
+def c09_owner_cancelled_while_another_request_is_queued():
+    """C09: the first caller of a key is cancelled while its batch is with the batch function and something else sits
+    in the queue: the caller sharing the key still gets the result."""
+    from aiuti.asyncio import AsyncBackgroundBatcher
+
+    async def sc():
+        gate, started = aio.Event(), aio.Event()
+        batches = []
+
+        async def func(batch):
+            batch = list(batch)
+            batches.append(batch)
+            if any(k == 'k' for k, _ in batch):
+                started.set()
+                await gate.wait()
+            for k, v in batch:
+                yield k, v * 10
+        b = AsyncBackgroundBatcher(func, batch_timeout=0.01)
+        owner = aio.ensure_future(b(1, key='k'))
+        await aio.sleep(0)
+        joiner = aio.ensure_future(b(1, key='k'))
+        await aio.wait_for(started.wait(), 100)
+        other = aio.ensure_future(b(2, key='x'))     # gets its turn (and is queued) before the cancelled owner cleans up
+        owner.cancel()
+        await _turns(6)
+        gate.set()
+        done, pending = await aio.wait({joiner, other}, timeout=500)
+        out = []
+        for t in pending:
+            t.cancel()
+        if joiner in pending:
+            out.append("C09: the caller sharing key 'k' was never answered after the first caller was cancelled")
+        elif joiner.cancelled():
+            out.append("C09: the caller sharing key 'k' ended with CancelledError although nobody cancelled it: cancelling "
+                       "the first caller cancelled the shared request")
+        elif joiner.exception() is not None or joiner.result() != 10:
+            out.append("C09: the caller sharing key 'k' got %r, the batch function yielded 10"
+                       % (joiner.exception() or joiner.result(),))
+        if other in done and not other.cancelled() and (other.exception() is not None or other.result() != 20):
+            out.append("C09: the unrelated caller 'x' got %r" % (other.exception() or other.result(),))
+        return out
+    return _run(sc)
+
+
 def _mk_batchfn(log, loop, dur=0.0, gate=None, active=None):
     async def fn(batch):
         batch = list(batch)
@@ -1443,6 +1589,94 @@ def c17_idle_target_does_not_depend_on_the_default_executor():
     return out
 
 
+def c17_stop_function_called_before_the_background_thread_runs_the_loop():
+    """C17: loop_in_thread(L) while L is running only because another caller borrowed it through ensure_aw: the call
+    returns at once, the background thread takes L over when the borrower is done.  The stop function called in
+    between (the thread owns L, run_forever() not entered yet) still has to stop THAT run and wait for the thread."""
+    import aiuti.asyncio as A
+    out = []
+    L = aio.new_event_loop()
+    armed, at_gate, gate_open = threading.Event(), threading.Event(), threading.Event()
+    progress, stop_scheduled, a_running = threading.Event(), threading.Event(), threading.Event()
+    real_rf, real_cst = L.run_forever, L.call_soon_threadsafe
+    box = {}
+
+    def run_forever():
+        if armed.is_set() and not at_gate.is_set():
+            at_gate.set()
+            gate_open.wait(30)
+        return real_rf()
+
+    def call_soon_threadsafe(cb, *a, **kw):
+        h = real_cst(cb, *a, **kw)
+        if getattr(cb, '__name__', '') == 'stop':
+            stop_scheduled.set()
+            progress.set()
+        return h
+    L.run_forever, L.call_soon_threadsafe = run_forever, call_soon_threadsafe
+
+    async def borrowed():
+        box['ev'] = aio.Event()
+        a_running.set()
+        await box['ev'].wait()
+        return 'A'
+
+    def caller():
+        try:
+            box['A'] = aio.run(A.ensure_aw(borrowed(), L))
+        except BaseException as e:  # noqa
+            box['A'] = e
+    ta = threading.Thread(target=caller, daemon=True)
+    ta.start()
+    try:
+        if not a_running.wait(15):
+            return ['C17 harness: the borrowed awaitable never ran on the target loop']
+        armed.set()
+        stop = A.loop_in_thread(L)
+        real_cst(box['ev'].set)
+        ta.join(15)
+        if ta.is_alive() or box.get('A') != 'A':
+            return ['C17: the caller that borrowed the loop did not finish: %r' % (box.get('A'),)]
+        if not at_gate.wait(15):
+            return ['C17: loop_in_thread(L) returned but its thread never took the loop over after the borrower left']
+        s_done = threading.Event()
+
+        def stopper():
+            try:
+                stop()
+            except BaseException as e:  # noqa
+                box['stop_exc'] = e
+            s_done.set()
+            progress.set()
+        ts = threading.Thread(target=stopper, daemon=True)
+        ts.start()
+        if not progress.wait(15):
+            out.append('C17: the stop function neither asked the loop to stop nor returned')
+        elif s_done.is_set() and not stop_scheduled.is_set():
+            gate_open.set()
+            marker = threading.Event()
+            real_cst(marker.set)
+            ran = marker.wait(10)
+            out.append('C17: the stop function of loop_in_thread returned (%r) without stopping anything while the '
+                       'background thread owned the loop and was about to run it; afterwards the loop %s'
+                       % (box.get('stop_exc'), 'ran on, forever' if ran else 'did not run'))
+        else:
+            gate_open.set()
+            if not s_done.wait(15):
+                out.append('C17: the stop function did not return after the loop had been run and stopped')
+            elif 'stop_exc' in box:
+                out.append('C17: the stop function raised %r' % (box['stop_exc'],))
+            elif L.is_running():
+                out.append('C17: the stop function returned while the loop is still running')
+    finally:
+        gate_open.set()
+        try:
+            real_cst(L.stop)
+        except BaseException:  # noqa
+            pass
+    return out
+
+
 def c20_every_kind_of_awaitable_and_failure():
     """C20: gather_excs / raise_first_exc over coroutines, spawned Tasks, plain Futures (failed through
     set_exception with an exception that was never raised) and objects with __await__."""
@@ -1527,6 +1761,30 @@ def c20_every_kind_of_awaitable_and_failure():
         got = [e async for e in gather_excs([co(None), parked, co(boom)])]
         if len(got) != 2 or not isinstance(got[0], aio.CancelledError) or got[1] is not boom:
             out.append('C20: gather_excs([ok, cancelled child, failing]) yielded %r: not in input order' % (got,))
+        # results are whatever the awaitables return (unhashable lists and dicts included) and failures need be
+        # neither distinct nor unequal: two awaitables failing with the very same object are two failures
+        shared = E1('shared')
+
+        async def ret(v):
+            return v
+        try:
+            got = [e async for e in gather_excs([ret([1, 2]), co(shared), ret({'k': []}), co(shared), ret(None), ret(None)])]
+        except BaseException as e:  # noqa
+            got = ('raised', e)
+        if got != [shared, shared]:
+            out.append('C20: gather_excs([returns a list, fails with X, returns a dict, fails with the same X, None, None]) '
+                       '-> %r, expected [X, X]' % (got,))
+
+        class EqAll(E1):
+            def __eq__(self, o):
+                return isinstance(o, EqAll)
+
+            def __hash__(self):
+                return 7
+        q0, q1 = EqAll('q0'), EqAll('q1')
+        got = [e async for e in gather_excs([co(q0), co(q1)])]
+        if len(got) != 2 or got[0] is not q0 or got[1] is not q1:
+            out.append('C20: gather_excs over two failures that compare equal yielded %r, expected both, in order' % (got,))
         if out:
             return out
         kinds = ('coroutine', 'task', 'future', 'custom')
@@ -1569,23 +1827,27 @@ SCENARIOS = {
             c05_stopped_computing_loop_recovery, c14_bounded_store_evicts_right_after_the_store,
             c06_callable_raising_when_called_and_check_then_read],
     'C03': [c03_foreign_thread_submission_reaches_an_idle_loop, c03_function_failing_with_its_own_cancelled_error,
-            c03_falsy_arguments_and_zero_timeout],
+            c03_falsy_arguments_and_zero_timeout, c03_producers_of_one_round_depend_on_each_other,
+            c08_large_burst_in_one_go],
     'C04': [c04_burst_with_a_cancelled_caller, c04_owner_cancelled_then_same_key_again_in_the_open_batch,
             c04_batch_size_lowered_while_assembling, c04_batch_callable_raising_when_called_and_zero_batch_timeout],
     'C09': [c04_owner_cancelled_then_same_key_again_in_the_open_batch, c11_sharer_cancelled_while_pending,
-            c09_owner_cancelled_while_every_slot_is_busy],
+            c09_owner_cancelled_while_every_slot_is_busy, c09_owner_cancelled_while_another_request_is_queued],
     'C10': [c15_options_form_equals_direct_form_batcher, c04_batch_size_lowered_while_assembling,
             c04_batch_callable_raising_when_called_and_zero_batch_timeout],
     'C11': [c11_sharer_cancelled_while_pending, c04_owner_cancelled_then_same_key_again_in_the_open_batch,
             c15_options_form_equals_direct_form_batcher],
     'C15': [c15_options_form_equals_direct_form_batcher, c15_options_form_cache_default],
     'C16': [c16_producer_far_ahead_of_the_consumer, c16_debug_mode_and_reused_loop],
-    'C17': [c17_every_kind_of_awaitable_crosses_loops, c17_idle_target_does_not_depend_on_the_default_executor],
+    'C17': [c17_every_kind_of_awaitable_crosses_loops, c17_idle_target_does_not_depend_on_the_default_executor,
+            c17_stop_function_called_before_the_background_thread_runs_the_loop],
     'C20': [c20_every_kind_of_awaitable_and_failure],
     'C07': [c07_shutdown_while_a_flush_is_requested, c03_function_failing_with_its_own_cancelled_error,
-            c07_cancelled_while_the_function_runs_and_reports_it_differently],
+            c07_cancelled_while_the_function_runs_and_reports_it_differently,
+            c07_waiters_return_after_the_call_that_delivered_their_arguments],
     'C08': [c08_wait_from_anywhere_without_flush, c03_function_failing_with_its_own_cancelled_error,
-            c08_foreign_thread_submission_restarts_the_quiet_period, c03_falsy_arguments_and_zero_timeout],
+            c08_foreign_thread_submission_restarts_the_quiet_period, c03_falsy_arguments_and_zero_timeout,
+            c08_large_burst_in_one_go],
 }
 
 
